@@ -136,9 +136,19 @@ def safe_encode_contract():
               r == mid.encode(encoding.lower(), errors))
 
 
+class _NS:
+    pass
+
+
 @proof('C16', targets=[(EU, 'to_utf8')], native=False, assumes=['A-CODEC'])
 def to_utf8_contract():
     E = load(EU)
+    # whatever the process's default encodings are
+    fake_sys = _NS()
+    fake_sys.stdin = _NS()
+    fake_sys.stdin.encoding = fresh_str('stdin_encoding')
+    fake_sys.getdefaultencoding = lambda: fresh_str('default_encoding')
+    model(E, 'sys', fake_sys)
     if pick('kind', ['bytes', 'str']) == 'bytes':
         b = fresh_bytes('text')
         check('utf8/bytes-identity', E.to_utf8(b) is b)
@@ -236,8 +246,26 @@ def codecs_and_slug_family():
              'x'.encode('utf-16'), b'\xc3\x28', b'\xed\xa0\x80']
     blobs += [bytes(r.getrandbits(8) for _ in range(r.randint(1, 6)))
               for _ in range(30)]
+    import sys as real_sys
+
+    class FakeStdin:
+        def __init__(self, enc):
+            self.encoding = enc
     for b in blobs:
         check('codec/to_utf8-bytes-identity', E.to_utf8(b) is b)
+        old_stdin = real_sys.stdin
+        for enc in ('latin-1', 'ascii', 'utf-16', None):
+            real_sys.stdin = FakeStdin(enc)
+            try:
+                try:
+                    got = E.to_utf8(b)
+                    exc = None
+                except Exception as e:
+                    got, exc = None, type(e).__name__
+            finally:
+                real_sys.stdin = old_stdin
+            check('codec/to_utf8-bytes-identity-under-any-stdin-encoding',
+                  exc is None and got is b, detail=(b, enc, exc))
         for e in encs:
             for ev in variants(e):
                 for p in policies:
